@@ -1,16 +1,16 @@
 #!/usr/bin/env python3
 """Regenerates the seed tables of DESIGN.md §9 (between the markers) from /verif/seeded/*/meta.json."""
 import json, glob, os, re
-rows1, rows2, rows3, rows4, rows5, rows6, rows7 = [], [], [], [], [], [], []
+rows1, rows2, rows3, rows4, rows5, rows6, rows7, rows8 = [], [], [], [], [], [], [], []
 for d in sorted(glob.glob('/verif/seeded/*')):
     m = json.load(open(d + '/meta.json'))
     n = os.path.basename(d)
     det = m.get('detection') == 'DETECTED'
     by = ('`' + (m.get('detected_by') or '') + '`') if det else '**missed**'
-    if '-r2m' in n or '-r3m' in n or '-r4m' in n or '-r5m' in n or '-r6m' in n or '-r7m' in n:
+    if '-r2m' in n or '-r3m' in n or '-r4m' in n or '-r5m' in n or '-r6m' in n or '-r7m' in n or '-r8m' in n:
         fs = m.get('first_sweep', '')
         first = 'detected' if fs.startswith('DETECTED') else 'missed'
-        (rows2 if '-r2m' in n else rows3 if '-r3m' in n else rows4 if '-r4m' in n else rows5 if '-r5m' in n else rows6 if '-r6m' in n else rows7).append(f"| {n} | {m.get('what','')} | {first} | {by} | {m.get('history','')} |")
+        (rows2 if '-r2m' in n else rows3 if '-r3m' in n else rows4 if '-r4m' in n else rows5 if '-r5m' in n else rows6 if '-r6m' in n else rows7 if '-r7m' in n else rows8).append(f"| {n} | {m.get('what','')} | {first} | {by} | {m.get('history','')} |")
     else:
         rows1.append(f"| {n} | {m.get('what','')} | {by} | {m.get('history','')} |")
 def count(rows, col):
@@ -34,6 +34,9 @@ n6first = sum(1 for r in rows6 if r.split('|')[3].strip() == 'detected')
 t7 = "| seed | what the change does | first sweep | caught by (now) | history |\n|---|---|---|---|---|\n" + "\n".join(rows7)
 n7d = count(rows7, 4)
 n7first = sum(1 for r in rows7 if r.split('|')[3].strip() == 'detected')
+t8 = "| seed | what the change does | first sweep | caught by (now) | history |\n|---|---|---|---|---|\n" + "\n".join(rows8)
+n8d = count(rows8, 4)
+n8first = sum(1 for r in rows8 if r.split('|')[3].strip() == 'detected')
 s = open('/verif/DESIGN.md').read()
 a = s.index('<!-- SEEDS:BEGIN -->'); b = s.index('<!-- SEEDS:END -->')
 body = f"""<!-- SEEDS:BEGIN -->
@@ -103,6 +106,19 @@ in round 7"). Two lanes of the confirmation run had to be repeated because a tim
 second run. Its defect reports are findings 100-105.
 
 {t7}
+
+### Round 8 ({len(rows8)} confirmed seeds; {n8first} detected by the first sweep, {n8d} detected now, {len(rows8)-n8d} missed)
+
+Round 8 (C04, C05, C08, C12, C13, C15, C19, C20, the instructions of rounds 5-7) was the last one the time allowed. One
+of its sixteen deliveries met an existing rule; one was the third delivery of the failed-flush merge under yet another
+property (kept: `swap-order` was not registered for C05); fourteen went past everything. By now the agents deliver
+what a reviewer would wave through: an optimisation with a plausible comment (`clear()` before truncating, "don't copy
+the native caches twice"), a de-duplication (`bc.GetStoragePrice()` for four lines that did the same over another DAO),
+a reordered pair of range tests, a `>=` that became `>`. Every miss was answered by the convention it broke (section 3,
+"Rules written in round 8"). One of those rules found finding 107 on its first run over the unchanged tree, and the
+round's defect reports gave finding 108 and a report against one of *my own* repairs (finding 105, section 10).
+
+{t8}
 
 """
 s = s[:a] + body + s[b:]
